@@ -23,17 +23,17 @@ ASSUMPTIONS = ["values whose reading is debatable (bound 2.0, numpy integers as 
 
 def bounds(tier):
     q = tier == "quick"
-    return {"packing": f"B=6, alphabet (0,3,6,7,9), 1..{4 if q else 5} items, >=1 oversize; dyadic B=1 alphabet (0,1/2,1,9/8,2) 1..3 items",
+    return {"packing": f"B=6, alphabet (0,3,6,7,9), 1..{4 if q else 6} items, >=1 oversize; dyadic B=1 alphabet (0,1/2,1,9/8,2) 1..3 items",
             "packing-huge": "B=2**53 (items 1, 2**52, 2**53, 2**53+1, 2**54), B=2**60 (5, 2**59, 2**60, 2**60+100): 1..3 items (integer bin size and integer items: the comparison is exact), >=1 oversize",
-            "packing-near": f"B=2**32 alphabet (1, 2**31, 2**32, 2**32+1, 2**33); B=1.0 alphabet (0.5, 1, 1+2**-40, 1+2**-20); B=60.0 alphabet (30, 60, 60.00000001, 61): 1..{3 if q else 4} items, >=1 oversize",
-            "cbldm": f"valid multisets of 0..{4 if q else 5} items over 0..3 (the empty list included); negative values -1,-3",
+            "packing-near": f"B=2**32 alphabet (1, 2**31, 2**32, 2**32+1, 2**33); B=1.0 alphabet (0.5, 1, 1+2**-40, 1+2**-20); B=60.0 alphabet (30, 60, 60.00000001, 61): 1..{3 if q else 5} items, >=1 oversize",
+            "cbldm": f"valid multisets of 0..{4 if q else 6} items over 0..3 (the empty list included); negative values -1,-3",
             "numitems": "arrays of 1..3 bins after 0..3 additions of items valued 0..2"}
 
 
 def tasks(tier):
     q = tier == "quick"
     ts = []
-    seqs = [s for s in spaces.sequences((0, 3, 6, 7, 9), 1, 4 if q else 5) if any(v > 6 for v in s)]
+    seqs = [s for s in spaces.sequences((0, 3, 6, 7, 9), 1, 4 if q else 6) if any(v > 6 for v in s)]
     for ch in spaces.chunked(seqs, 40):
         ts.append(("packing", ch, 6))
     fr = (Fraction(0), Fraction(1, 2), Fraction(1), Fraction(9, 8), Fraction(2))
@@ -43,7 +43,7 @@ def tasks(tier):
     # near-threshold oversize items: one unit above a 2**32 bin, 2**-40 above a bin of 1.0, 1e-8 above a bin of 60
     # (a relative tolerance or a narrower number type would let them through)
     big = (1, 2 ** 31, 2 ** 32, 2 ** 32 + 1, 2 ** 33)
-    seqs = [s for s in spaces.sequences(big, 1, 3 if q else 4) if any(v > 2 ** 32 for v in s)]
+    seqs = [s for s in spaces.sequences(big, 1, 3 if q else 5) if any(v > 2 ** 32 for v in s)]
     for ch in spaces.chunked(seqs, 40):
         ts.append(("packing-near", ch, 2 ** 32))
     # beyond 2**53 an excess of one unit is below the resolution of a float sum: the refusal must not depend on float arithmetic
@@ -52,10 +52,10 @@ def tasks(tier):
         for ch in spaces.chunked(seqs, 40):
             ts.append(("packing-near", ch, B))
     for alpha, B in (((0.5, 1.0, 1.0 + 2.0 ** -40, 1.0 + 2.0 ** -20), 1.0), ((30.0, 60.0, 60.00000001, 61.0), 60.0)):
-        seqs = [s for s in spaces.sequences(alpha, 1, 3 if q else 4) if any(v > B for v in s)]
+        seqs = [s for s in spaces.sequences(alpha, 1, 3 if q else 5) if any(v > B for v in s)]
         for ch in spaces.chunked(seqs, 40):
             ts.append(("packing-near", ch, B))
-    for ch in scopes.chunk_multisets(range(0, 4), 1, 4 if q else 5, 12):
+    for ch in scopes.chunk_multisets(range(0, 4), 1, 4 if q else 6, 12):
         ts.append(("cbldm", ch, None))
     ts.append(("cbldm", [()], None))      # no items at all + one invalid argument: still refused (the statement is unconditional)
     ts.append(("numitems", [None], None))
